@@ -90,6 +90,13 @@ def run(ctx):
                 bad = 'the transposed view of a %d x %d matrix does not expose (i,j) as (j,i) through its two-index accessors' % (C, R)
             if not bad and '@transposed_diag' in d and d['@transposed_diag'] != [x for a in range(T) for i in range(R) for x in (str(a * R + i), str(a * R + i))]:
                 bad = 'the transposed view of a diagonal tensor (%d groups, %d layers) does not expose (k, a) as (k, a) through its two-index accessors' % (R, T)
+            if not bad and '@shape_from_vector' in d:
+                got = ' '.join(d['@shape_from_vector'])
+                acc = lambda *x: ' '.join(str(y) for y in x)
+                want_short = ' | '.join([acc(R, C, 1, R * C), acc(R, 1, T, R * T), acc(R, R, T, R * R * T)])
+                want_long = ' | '.join([acc(R, C, 1, R * C, R, C, 1), acc(R, 1, T, R * T, R, 1, T), acc(R, R, T, R * R * T, R, R, T)])
+                if got not in (want_short, want_long):
+                    bad = 'containers built from a vector of values (matrix %d x %d; diagonal and symmetric tensor with %d groups, %d layers) report the shapes: %s' % (R, C, R, T, got)
             if bad:
                 ctx.violation('layout', bad, {'case': line, 'impl': d})
         for line in waff:
